@@ -72,7 +72,7 @@ def _bool_true_edges(body, pred):
 def r2_verdict_table(ctx):
     ws = ctx.ws
     r = ctx.rule("C08-R2", "CommitTree::compare: Equal only under root equality, Contains only under a verified proof, else Unknown",
-                 floor=3, kind="K2 edge dominance")
+                 floor=5, kind="K2 edge dominance + converse (Unknown only behind a failed test)")
     fn = ws.fn("sos_core::commit::tree::CommitTree::compare")
     if not fn:
         r.anchor_missing("CommitTree::compare")
@@ -126,6 +126,25 @@ def r2_verdict_table(ctx):
             r.violation(k2, cfg.loc(body, i), "Comparison::Contains is produced without checking that every proven index resolved to a local leaf", work=len(body.blocks))
         else:
             r.ok(k2, cfg.loc(body, i), "Contains only when all indices resolved locally", work=len(body.blocks))
+    # completeness: Unknown is the answer only after a failed verification or an
+    # index the local tree does not have — a proof whose positions agree must not
+    # be refused for any other reason (e.g. a shortcut on the lengths)
+    fg = FlowGraph(ws, fn)
+    resolved = [bs for bs in lens if fg.back([(body.path, bs.local)]).reads_field("indices", PROOF_TY)]
+
+    def neg_edge(bs):
+        pb, pt = pos_edge(bs)
+        return (bs.block, bs.true_t if pt == bs.false_t else bs.false_t)
+    for n_, i in enumerate(aggs.get("Unknown", [])):
+        k = fn.root + "|Unknown-needs-failed-verify#%d" % (n_ + 1)
+        cut = {neg_edge(bs) for bs in vers} | {neg_edge(bs) for bs in resolved}
+        if not vers or not resolved:
+            r.violation(k, cfg.loc(body, i), "compare has no verification / index-resolution test to justify Unknown", work=len(body.blocks))
+        elif i in cfg.reach(body, [0], cut_edges=cut):
+            p = cfg.find_path(body, [0], [i], cut_edges=cut)
+            r.violation(k, cfg.loc(body, i), "Comparison::Unknown is produced on a path (%s) that neither failed MerkleProof::verify nor found a proven index missing locally: a proof whose positions agree is refused" % (cfg.path_lines(body, p) if p else "?"), work=len(body.blocks))
+        else:
+            r.ok(k, cfg.loc(body, i), "Unknown only behind a failed verify or an unresolved index", work=len(body.blocks))
     # every Ok exit is one of the three aggregates
     for e in cfg.exits(body):
         if e.kind == "ok":
@@ -309,13 +328,189 @@ def r5_scan_page_depends_on_offset(ctx):
         r.anchor_missing("proof(&[index]) call in scan_log")
 
 
+MERKLE_MUT = re.compile(r"rs_merkle::merkle_tree::MerkleTree::<.*>::(insert|append|commit|rollback|from_leaves)$")
+
+
+def _field_writes(body, field):
+    """(block, stmt) of every assignment whose destination is the field."""
+    out = []
+    for i in sorted(cfg.live_blocks(body)):
+        for s in body.blocks[i]["s"]:
+            d = s.get("d")
+            if d and cfg.place_fields(d)[-1:] == [field]:
+                out.append((i, s))
+    return out
+
+
+def r6_last_commit_tracks_tree(ctx):
+    """`CommitState(last_commit, head)` is what each side sends for comparison
+    and what `diff` uses to decide whether there is anything to push: the
+    `last_commit` cache of CommitTree must name the last leaf of the tree the
+    head proof is taken from. Decided per mutator of the inner Merkle tree."""
+    ws = ctx.ws
+    r = ctx.rule("C08-R6", "CommitTree keeps last_commit equal to the last leaf across insert/append/commit/rollback, and commit_state pairs it with the head proof of the same tree",
+                 floor=6, kind="K4 value flow + K2 must-pass-through per mutator (sibling table)")
+    fns = [f for f in ws.find_fns(r"^sos_core::commit::tree::CommitTree::[a-z_]+$")]
+    if not fns:
+        r.anchor_missing("sos_core::commit::tree::CommitTree methods")
+        return
+    seen = set()
+    for f in fns:
+        body = cfg.code_body(ws, f)
+        live = cfg.live_blocks(body)
+        muts = [(i, t, MERKLE_MUT.search(t.get("callee") or "").group(1)) for i, t in idioms.real_calls(body, live)
+                if MERKLE_MUT.search(t.get("callee") or "") and t["args"] and "tree" in cfg.place_fields(_ref_target(body, t["args"][0]) or "")]
+        name = f.root.rsplit("::", 1)[-1]
+        if not muts:
+            continue
+        fg = FlowGraph(ws, f)
+        for (i, t, op) in muts:
+            k = "%s|%s" % (f.root, op)
+            seen.add(op)
+            if op in ("insert", "append"):
+                ws_ = _field_writes(body, "maybe_last_commit")
+                good = False
+                for (bi, st) in ws_:
+                    if st.get("k") not in ("use",) or not st.get("ops"):
+                        continue
+                    sl = fg.back_from_operand(body, st["ops"][0])
+                    from_arg = sl.has_local(body, 2)
+                    calls = {cname(ct) for _b, _i, ct in sl.calls}
+                    if op == "insert" and from_arg:
+                        good = True
+                    if op == "append" and from_arg and "last" in calls and not (calls & {"first", "nth", "get"}):
+                        good = True
+                if good:
+                    r.ok(k, cfg.loc(body, i), "the pending last commit is taken from the %s" % ("inserted hash" if op == "insert" else "last of the appended hashes"), work=len(body.blocks))
+                else:
+                    r.violation(k, cfg.loc(body, i), "CommitTree::%s changes the leaves but does not record the new last leaf as the pending last commit: after commit(), last_commit()/commit_state() name a leaf that is not the tree's last" % name, work=len(body.blocks))
+            elif op == "commit":
+                good = False
+                for (bi, st) in _field_writes(body, "last_commit"):
+                    if st.get("k") == "use" and st.get("ops"):
+                        sl = fg.back_from_operand(body, st["ops"][0])
+                        if any(cfg.place_fields(p)[-1:] == ["maybe_last_commit"] for _b, p in sl.reads) or sl.reads_field("maybe_last_commit"):
+                            good = True
+                # the assignment is gated by the presence of a pending value (a commit with
+                # nothing pending keeps the cache) and by nothing else
+                if good:
+                    wblocks = {bi for bi, _st in _field_writes(body, "last_commit")}
+                    gated = False
+                    for j in sorted(live):
+                        bs = cfg.bool_switch(body, j)
+                        if not bs:
+                            continue
+                        sl = fg.back([(body.path, bs.local)])
+                        if not (sl.reads_field("maybe_last_commit") or any(cfg.place_fields(p)[-1:] == ["maybe_last_commit"] for _b, p in sl.reads)):
+                            good = False
+                            continue
+                        tr = cfg.reach(body, [bs.true_t], cut_blocks=[bs.block])
+                        fr = cfg.reach(body, [bs.false_t], cut_blocks=[bs.block])
+                        if wblocks and (wblocks <= (tr - fr) or wblocks <= (fr - tr)):
+                            gated = True
+                    for es in cfg.enum_switches(body):
+                        # `if let Some(x) = self.maybe_last_commit.take()` form
+                        sl = fg.back([fg.key(body, es.place)])
+                        some_t = es.targets.get("Some")
+                        if some_t is None or not (sl.reads_field("maybe_last_commit") or any(cfg.place_fields(p)[-1:] == ["maybe_last_commit"] for _b, p in sl.reads) or "maybe_last_commit" in cfg.place_fields(es.place)):
+                            good = False
+                            continue
+                        others = [b for v, b in es.targets.items() if v != "Some"] + ([es.otherwise] if es.otherwise_live else [])
+                        tr = cfg.reach(body, [some_t], cut_blocks=[es.block])
+                        fr = cfg.reach(body, others, cut_blocks=[es.block])
+                        if wblocks and wblocks <= (tr - fr):
+                            gated = True
+                    if not gated:
+                        good = False
+                if good:
+                    r.ok(k, cfg.loc(body, i), "commit() promotes the pending last commit (gated only by its presence)", work=len(body.blocks))
+                else:
+                    r.violation(k, cfg.loc(body, i), "CommitTree::%s commits the leaves without promoting the pending last commit to last_commit (or gates it on something else)" % name, work=len(body.blocks))
+            elif op == "rollback":
+                lw = _field_writes(body, "last_commit")
+                mw = _field_writes(body, "maybe_last_commit")
+                after = cfg.reach_after(body, i)
+                rets = [j for j in after if (body.blocks[j].get("term") or {}).get("k") == "return"]
+                bypass = cfg.find_path(body, [x for x in cfg.succs(body)[i]], rets, cut_blocks=[b for b, _s in lw]) if rets else None
+                from_leaves = False
+                for (bi, st) in lw:
+                    if st.get("k") == "use" and st.get("ops"):
+                        sl = fg.back_from_operand(body, st["ops"][0])
+                        calls = {cname(ct) for _b, _i, ct in sl.calls}
+                        if "leaves" in calls and "last" in calls and not (calls & {"first", "nth", "get"}):
+                            from_leaves = True
+                cleared = any(st.get("k") in ("agg", "use") and bi in after | {i} for bi, st in mw)
+                if not rets:
+                    r.violation(k, cfg.loc(body, i), "no return after the rollback call", work=len(body.blocks))
+                elif bypass is not None or not from_leaves or not cleared:
+                    why = []
+                    if bypass is not None:
+                        why.append("a path from the rollback to the return does not reassign last_commit (%s)" % cfg.path_lines(body, bypass))
+                    if not from_leaves:
+                        why.append("last_commit is not recomputed from the last of the restored leaves")
+                    if not cleared:
+                        why.append("the pending last commit is not cleared")
+                    r.violation(k, cfg.loc(body, i), "CommitTree::%s restores the committed leaves but %s: last_commit()/commit_state() keep naming a leaf that was rolled back" % (name, "; ".join(why)), work=len(body.blocks))
+                else:
+                    r.ok(k, cfg.loc(body, i), "rollback() clears the pending value and recomputes last_commit from the restored leaves on every path", work=len(body.blocks))
+    for op in ("insert", "append", "commit", "rollback"):
+        if op not in seen:
+            r.anchor_missing("CommitTree method calling MerkleTree::%s on self.tree" % op)
+    # last_commit() reads the committed cache; commit_state pairs it with head() of the same self
+    lc = ws.find_fns(r"^sos_core::commit::tree::CommitTree::last_commit$")
+    cs = ws.find_fns(r"^sos_core::commit::tree::CommitTree::commit_state$")
+    if not lc or not cs:
+        r.anchor_missing("CommitTree::last_commit / commit_state")
+        return
+    body = cfg.code_body(ws, lc[0])
+    fg = FlowGraph(ws, lc[0])
+    sl = fg.back([(body.path, 0)])
+    rd = {cfg.place_fields(p)[-1] for _b, p in sl.reads if cfg.place_fields(p)}
+    k = lc[0].root + "|reads-committed-cache"
+    if "last_commit" in rd and "maybe_last_commit" not in rd:
+        r.ok(k, cfg.loc(body), "last_commit() returns the committed cache", work=len(sl.nodes))
+    else:
+        r.violation(k, cfg.loc(body), "last_commit() does not return the committed last_commit field (reads %s)" % sorted(rd), work=len(sl.nodes))
+    body = cfg.code_body(ws, cs[0])
+    fg = FlowGraph(ws, cs[0])
+    k = cs[0].root + "|pairs-last-commit-with-head"
+    okc = False
+    for e in cfg.exits(body):
+        pass
+    aggs = [(i, s) for i in sorted(cfg.live_blocks(body)) for s in body.blocks[i]["s"] if s.get("k") == "agg" and s.get("ak") == "adt" and (s.get("adt") or "").endswith("CommitState")]
+    for (i, s) in aggs:
+        if len(s["ops"]) != 2:
+            continue
+        s0 = fg.back_from_operand(body, s["ops"][0])
+        s1 = fg.back_from_operand(body, s["ops"][1])
+        c0 = {cname(ct) for _b, _i, ct in s0.calls}
+        c1 = {cname(ct) for _b, _i, ct in s1.calls}
+        if "last_commit" in c0 and "head" in c1 and not (c0 & {"first_commit", "leaves"}) and "first_commit" not in c1:
+            okc = True
+    if okc:
+        r.ok(k, cfg.loc(body), "CommitState = (last_commit(), head()) of the same tree", work=len(body.blocks))
+    else:
+        r.violation(k, cfg.loc(body), "commit_state() no longer pairs last_commit() with head() of the same tree", work=len(body.blocks))
+
+
+def _ref_target(body, op):
+    """Place a `&mut self.tree` operand refers to (one ref statement back)."""
+    l = cfg.op_local(op)
+    if l is None:
+        return None
+    for (_bi, st, is_term) in cfg.defs_of(body).get(l, []):
+        if not is_term and st.get("k") in ("ref", "refmut") :
+            return st.get("p") or (cfg.op_place(st["ops"][0]) if st.get("ops") else None)
+    return None
+
+
 def run(ctx):
     ctx.explanation = (
         "Value-flow and edge-dominance rules over CommitTree::compare, CommitProof::verify_leaves, every call of "
         "rs_merkle::MerkleProof::verify and the consumers of Comparison: (R1) root, indices and total leaf count "
         "passed to verify come from the same CommitProof; (R2) Equal/Contains are constructed only on the true edges "
         "of root equality / (all indices resolved and verify); (R3) consumers distinguish Unknown; (R4) the ancestor "
-        "scan returns a commit only for a verified proof and rebuilds the checkpoint from the matched index; (R5) the index proved for a scan page is a function of the request offset. Decides "
+        "scan returns a commit only for a verified proof and rebuilds the checkpoint from the matched index; (R5) the index proved for a scan page is a function of the request offset; (R6) CommitTree keeps its last_commit cache equal to the last leaf across every mutator of the inner tree and commit_state pairs it with the head proof. Decides "
         "how verdicts are sourced; soundness of the Merkle scheme itself is rs_merkle's (trusted).")
     ctx.trust("rs_merkle::MerkleProof::verify is a sound Merkle multi-proof verifier")
     r1_verify_against_own_tree(ctx)
@@ -323,3 +518,4 @@ def run(ctx):
     r3_consumers_exhaustive(ctx)
     r4_ancestor_scan(ctx)
     r5_scan_page_depends_on_offset(ctx)
+    r6_last_commit_tracks_tree(ctx)
